@@ -9,7 +9,7 @@ from __future__ import annotations
 from dataclasses import dataclass, field
 from typing import Callable, Dict, List, Optional, Tuple
 
-from . import bd, bw, cc, er, ev, ex, fs, hx, hy, lk, on, oo, rd, rt, sh, st, vw, wk
+from . import bd, bw, cc, er, ev, ex, fs, hx, hy, hz, lk, on, oo, rd, rt, sh, st, vw, wk
 
 
 @dataclass
@@ -53,6 +53,7 @@ RULE_GROUPS: Dict[str, Callable] = {
     'er.raise_provenance': er.rule_raise_provenance,
     'er.partial_lookups': er.rule_partial_lookups,
     'er.errors_as_values': er.rule_errors_as_values,
+    'er.error_identity': er.rule_error_identity,
     'st.finish_predicates': st.rule_finish_predicates,
     'st.ready_strict': st.rule_ready_strict,
     'st.store_contract': st.rule_store_contract,
@@ -108,6 +109,7 @@ RULE_GROUPS: Dict[str, Callable] = {
     'fs.rollback': fs.rule_rollback,
     'fs.exact_key': fs.rule_exact_key,
     'fs.saves': fs.rule_saves,
+    'fs.format_from_name': fs.rule_format_from_name,
     'vw.nodes_and_edges': vw.rule_nodes_and_edges,
     'vw.pure': vw.rule_pure,
     'vw.schema': vw.rule_schema,
@@ -115,6 +117,14 @@ RULE_GROUPS: Dict[str, Callable] = {
     'vw.source_and_ids': vw.rule_source_and_ids,
     'vw.type_table': vw.rule_type_table,
     'vw.generate_total': vw.rule_generate_total,
+    'hz.dead_task_wakes_run': hz.rule_dead_task_wakes_run,
+    'hz.builder_structure': hz.rule_builder_structure,
+    'hz.handover_keyed_by_subgraph': hz.rule_handover_keyed_by_subgraph,
+    'hz.no_head_of_line_blocking': hz.rule_no_head_of_line_blocking,
+    'hz.pipeline_complete_on_every_exit': hz.rule_pipeline_complete_on_every_exit,
+    'hz.atomic_exclusive_save': hz.rule_atomic_exclusive_save,
+    'hz.recurrent_ready_covers_outside_inputs': hz.rule_recurrent_ready_covers_outside_inputs,
+    'hz.generated_default_and_stub': hz.rule_generated_default_and_stub,
     'hy.context_propagated': hy.rule_context_propagated,
     'hy.pool_replaceable': hy.rule_pool_replaceable,
     'hy.fork_context': hy.rule_fork_context,
@@ -183,15 +193,29 @@ RULES: Dict[str, Tuple[str, str]] = {
     'CC-8': ('hx.order_vs_dependencies', 'dependencies restricted to a sub-dag come from the sub-dag\'s own edges (consistent with its launch order)'),
     'VL-7': ('bd.annotation_check_semantics', 'the annotation check rejects every un-annotated parameter (whatever its default) and accepts annotated run methods'),
     'EX-7': ('ex.decision_table', 'no pool is demanded before the run for a node kind whose dispatch never fetches it'),
+    'ER-10': ('hz.dead_task_wakes_run', 'a task that ends with an exception wakes run() (done-callback where tasks are created)'),
+    'VL-11': ('hz.builder_structure', 'the start node of a recurrent subgraph is validated and is an ancestor of the destination'),
+    'BD-14': ('hz.builder_structure', 'two recurrent declarations for one destination are not merged'),
+    'BD-15': ('hz.builder_structure', 'every (label, case) pair and the decider role of a switch survive translation'),
+    'BD-16': ('hz.builder_structure', 'the built graph is acyclic'),
+    'RC-10': ('hz.handover_keyed_by_subgraph', 'the hand-over of a re-iteration is keyed by the subgraph, not by the start node alone'),
+    'CC-12': ('hz.no_head_of_line_blocking', 'the readiness wait of one node is not awaited in the frame of the launch loop'),
+    'EV-7': ('hz.pipeline_complete_on_every_exit', 'on_pipeline_complete closes the history on every exit of run()'),
+    'FS-8': ('hz.atomic_exclusive_save', 'a save creates the key exclusively and publishes it atomically'),
+    'RD-10': ('hz.recurrent_ready_covers_outside_inputs', 'in a recurrent scope readiness waits for outside parameter sources that have no result'),
+    'BN-5': ('hz.generated_default_and_stub', 'get_default of a build_node node receives dependencies_default'),
+    'VL-12': ('hz.generated_default_and_stub', 'a class without a run method of its own is rejected although a base class provides a stub'),
     'EX-8': ('hy.context_propagated', 'a body sent to the thread pool runs in a copy of the caller\'s contextvars context'),
     'EX-9': ('hy.pool_replaceable', 'a pool that is_ready() rejects can be replaced by registering a new one'),
     'EX-10': ('hy.fork_context', 'the process pool created by the engine does not fork its multi-threaded process'),
+    'FS-7': ('fs.format_from_name', 'the format of a found artifact is read off the file name, not off Path.suffix'),
     'FS-6': ('hy.path_components', 'every free-text part of an artifact key is sanitised before it is joined to a path'),
     'AS-6': ('fs.saves', 'the save is reached for every final value (None, falsy, truthy)'),
     'AS-5': ('hy.save_survives_run_exit', 'the save of a published value is not cancellable by the end of the run'),
     'CC-9': ('hy.no_path_enumeration', 'no exponential path enumeration on the run path'),
     'CC-10': ('hy.user_code_off_loop', 'constructor and get_default of a pool-mode node do not run on the event-loop thread'),
     'CC-11': ('hy.user_code_off_loop', 'no execution mode runs a body synchronously inside the node\'s task'),
+    'ER-9': ('er.error_identity', 'the exception found by the error scan is tested by identity, never by its truth value'),
     'ER-8': ('lk.spawn_registered', 'the registry scanned for the first error iterates in creation order, not in hash order'),
     'VW-10': ('vw.generate_total', 'generate() yields one entry per node and per edge, is idempotent and leaves the DAG untouched'),
     'VW-9': ('vw.type_table', 'the node-type table covers every type that occurs on a node entry'),
@@ -213,6 +237,7 @@ RULES: Dict[str, Tuple[str, str]] = {
     'BN-1': ('bw.build_node', 'the run method generated by build_node is named like the attribute it is stored as'),
     'BN-2': ('bw.build_node', 'the run method generated by build_node carries the documentation of the wrapped method'),
     'BN-3': ('bw.build_node', 'the run method generated by build_node carries the not re-bound annotations of the wrapped method'),
+    'ON-7': ('wk.event_set', 'the execution event of a node is set only by the request that executed it'),
     'ON-6': ('st.order_skips_taken_nodes', 'a plain scope schedules exactly the nodes nobody has taken yet; a recurrent scope orders all its nodes'),
     'SH-6': ('cc.wrapper_kind', 'a process wrapper generated for a node class keeps no state in its enclosing scope'),
     'RC-8': ('oo.recurrent_loop', 'the hand-over entry of a recurrent subgraph is removed when the subgraph has finished'),
@@ -638,15 +663,31 @@ _add('C06', 'BN-4')
 _add('C15', 'BN-4')
 _add('C07', 'ER-8', 'EX-9', 'SH-8', 'BN-4')
 _add('C10', 'SH-8', 'OO-10')
-_add('C03', 'SH-9', 'RD-9')
+_add('C03', 'SH-9', 'RD-9', 'ON-7')
+_add('C04', 'ON-7')
+_add('C14', 'ON-7')
 _add('C09', 'SH-9')
 _add('C11', 'SH-9')
 _add('C05', 'RT-2', 'RT-5', 'RT-6')
-_add('C12', 'RT-8', 'RT-9')
+_add('C12', 'RT-8', 'RT-9', 'BN-5')
+_add('C02', 'ER-10', 'VL-11', 'BD-15', 'BD-16')
+_add('C05', 'ER-10')
+_add('C14', 'ER-10', 'EV-7')
+_add('C16', 'VL-11', 'VL-12')
+_add('C15', 'BD-14', 'BD-15', 'BD-16')
+_add('C11', 'RC-10', 'BD-14', 'VL-11', 'RD-10')
+_add('C04', 'RC-10')
+_add('C06', 'CC-12')
+_add('C18', 'FS-8')
+_add('C09', 'BD-15', 'RD-10')
+_add('C03', 'RD-10')
+_add('C02', 'ER-9')
+_add('C05', 'ER-9')
+_add('C14', 'ER-9')
 _add('C02', 'RT-9')
 _add('C08', 'EX-9', 'EX-10', 'SH-8', 'BN-4')
 _add('C17', 'EX-8', 'EX-9', 'EX-10')
-_add('C18', 'FS-6')
+_add('C18', 'FS-6', 'FS-7')
 _add('C19', 'AS-5', 'AS-6')
 _add('C06', 'CC-9', 'CC-10', 'CC-11')
 _add('C05', 'ER-8')
